@@ -253,6 +253,69 @@ pub fn affine(d: &mut Drv, chains: &[(usize, Vec<String>)]) {
     for (n, kinds) in chains { chain(d, *n, kinds); }
 }
 
+// ---------------------------------------------------------------------------
+// C14: Bezier curves on free symbols: control points AND the parameter are symbols, so evaluation, derivative and
+// both halves of a split are compared with the Bernstein / de Casteljau polynomials for every curve and every t
+// (inside or outside [0,1]).  The parameter is allocated first: it reaches degree 3 and gets the smallest prime.
+macro_rules! bez_sym {
+    ($d:expr, $B:ident, $name:expr, $deg:expr, $dim:expr, $mk:ident, [$($f:ident),+]) => {{
+        let d: &mut Drv = $d;
+        sym::reset();
+        let t = Sym::fresh("t");
+        let c: Vec<Vec<Sym>> = (0..=$deg).map(|_| fresh($dim)).collect();
+        let mk = |c: &Vec<Vec<Sym>>| { let mut i = 0; vek::bezier::$B::<Sym> { $($f: { i += 1; $mk(&c[i - 1]) }),+ } };
+        let b = mk(&c);
+        let pj = |c: &Vec<Vec<Sym>>| Value::Array(c.iter().map(|p| evs(p)).collect());
+        let tp = |b: &vek::bezier::$B<Sym>| -> Vec<Vec<Sym>> { vec![$(b.$f.into_iter().collect::<Vec<Sym>>()),+] };
+        let arg = || json!({"ty": $name, "pts": pj(&c), "t": ev(t), "lane": "sym"});
+        d.call("bez_eval", arg, || evs(&b.evaluate(t).into_iter().collect::<Vec<Sym>>()));
+        d.call("bez_deriv", arg, || evs(&b.evaluate_derivative(t).into_iter().collect::<Vec<Sym>>()));
+        d.call("bez_split", arg, || { let [f, s] = b.split(t); json!([pj(&tp(&f)), pj(&tp(&s))]) });
+        let conv = |how: &str| json!({"ty": $name, "how": how, "pts": pj(&c), "lane": "sym"});
+        d.call("bez_conv", || conv("reversed"), || pj(&tp(&b.reversed())));
+        d.call("bez_conv", || conv("reversed"), || { let mut x = b; x.reverse(); pj(&tp(&x)) });
+        d.call("bez_conv", || conv("flip_x"), || pj(&tp(&b.flipped_x())));
+        d.call("bez_conv", || conv("flip_y"), || { let mut x = b; x.flip_y(); pj(&tp(&x)) });
+        (b, c)
+    }};
+}
+macro_rules! bez_mul_sym {
+    ($d:expr, $M:ident, $n:expr, $B:ident, $name:expr, $dim:expr, $mk:ident, [$($f:ident),+]) => {{
+        let d: &mut Drv = $d;
+        sym::reset();
+        let c: Vec<Vec<Sym>> = (0..[$(stringify!($f)),+].len()).map(|_| fresh($dim)).collect();
+        let mut a = freshm($n);
+        if $n != $dim { for j in 0..$n { a[$n - 1][j] = Sym::int((j == $n - 1) as i64); } }
+        let mk = |c: &Vec<Vec<Sym>>| { let mut i = 0; vek::bezier::$B::<Sym> { $($f: { i += 1; $mk(&c[i - 1]) }),+ } };
+        let pj = |c: &Vec<Vec<Sym>>| Value::Array(c.iter().map(|p| evs(p)).collect());
+        let tp = |b: &vek::bezier::$B<Sym>| -> Vec<Vec<Sym>> { vec![$(b.$f.into_iter().collect::<Vec<Sym>>()),+] };
+        d.call("bez_mul", || json!({"ty": $name, "n": $n, "lay": "r", "a": evm(&a), "pts": pj(&c), "lane": "sym"}), || pj(&tp(&(<rm::$M<Sym> as MatT<Sym>>::from_rows(&a) * mk(&c)))));
+        d.call("bez_mul", || json!({"ty": $name, "n": $n, "lay": "c", "a": evm(&a), "pts": pj(&c), "lane": "sym"}), || pj(&tp(&(<cm::$M<Sym> as MatT<Sym>>::from_rows(&a) * mk(&c)))));
+    }};
+}
+pub fn bezier(d: &mut Drv) {
+    let pj = |c: &Vec<Vec<Sym>>| Value::Array(c.iter().map(|p| evs(p)).collect());
+    let (q2, c2) = bez_sym!(d, QuadraticBezier2, "QuadraticBezier2", 2, 2, v2, [start, ctrl, end]);
+    d.call("bez_conv", || json!({"ty": "QuadraticBezier2", "how": "into_3d", "pts": pj(&c2), "lane": "sym"}), || { let b = q2.into_3d(); pj(&vec![b.start.into_iter().collect(), b.ctrl.into_iter().collect(), b.end.into_iter().collect()]) });
+    let (q3, c3) = bez_sym!(d, QuadraticBezier3, "QuadraticBezier3", 2, 3, v3, [start, ctrl, end]);
+    d.call("bez_conv", || json!({"ty": "QuadraticBezier3", "how": "into_2d", "pts": pj(&c3), "lane": "sym"}), || { let b = q3.into_2d(); pj(&vec![b.start.into_iter().collect(), b.ctrl.into_iter().collect(), b.end.into_iter().collect()]) });
+    d.call("bez_conv", || json!({"ty": "QuadraticBezier3", "how": "flip_z", "pts": pj(&c3), "lane": "sym"}), || { let mut b = q3; b.flip_z(); pj(&vec![b.start.into_iter().collect(), b.ctrl.into_iter().collect(), b.end.into_iter().collect()]) });
+    let (k2, d2) = bez_sym!(d, CubicBezier2, "CubicBezier2", 3, 2, v2, [start, ctrl0, ctrl1, end]);
+    d.call("bez_conv", || json!({"ty": "CubicBezier2", "how": "into_3d", "pts": pj(&d2), "lane": "sym"}), || { let b = k2.into_3d(); pj(&vec![b.start.into_iter().collect(), b.ctrl0.into_iter().collect(), b.ctrl1.into_iter().collect(), b.end.into_iter().collect()]) });
+    let (k3, d3) = bez_sym!(d, CubicBezier3, "CubicBezier3", 3, 3, v3, [start, ctrl0, ctrl1, end]);
+    d.call("bez_conv", || json!({"ty": "CubicBezier3", "how": "into_2d", "pts": pj(&d3), "lane": "sym"}), || { let b = k3.into_2d(); pj(&vec![b.start.into_iter().collect(), b.ctrl0.into_iter().collect(), b.ctrl1.into_iter().collect(), b.end.into_iter().collect()]) });
+    d.call("bez_conv", || json!({"ty": "CubicBezier3", "how": "flip_z", "pts": pj(&d3), "lane": "sym"}), || { let b = k3.flipped_z(); pj(&vec![b.start.into_iter().collect(), b.ctrl0.into_iter().collect(), b.ctrl1.into_iter().collect(), b.end.into_iter().collect()]) });
+    d.call("bez_conv", || json!({"ty": "CubicBezier3", "how": "flip_z", "pts": pj(&d3), "lane": "sym"}), || { let mut b = k3; b.flip_z(); pj(&vec![b.start.into_iter().collect(), b.ctrl0.into_iter().collect(), b.ctrl1.into_iter().collect(), b.end.into_iter().collect()]) });
+    bez_mul_sym!(d, Mat2, 2, QuadraticBezier2, "QuadraticBezier2", 2, v2, [start, ctrl, end]);
+    bez_mul_sym!(d, Mat2, 2, CubicBezier2, "CubicBezier2", 2, v2, [start, ctrl0, ctrl1, end]);
+    bez_mul_sym!(d, Mat3, 3, QuadraticBezier2, "QuadraticBezier2", 2, v2, [start, ctrl, end]);
+    bez_mul_sym!(d, Mat3, 3, CubicBezier2, "CubicBezier2", 2, v2, [start, ctrl0, ctrl1, end]);
+    bez_mul_sym!(d, Mat3, 3, QuadraticBezier3, "QuadraticBezier3", 3, v3, [start, ctrl, end]);
+    bez_mul_sym!(d, Mat3, 3, CubicBezier3, "CubicBezier3", 3, v3, [start, ctrl0, ctrl1, end]);
+    bez_mul_sym!(d, Mat4, 4, QuadraticBezier3, "QuadraticBezier3", 3, v3, [start, ctrl, end]);
+    bez_mul_sym!(d, Mat4, 4, CubicBezier3, "CubicBezier3", 3, v3, [start, ctrl0, ctrl1, end]);
+}
+
 /// `vh drive sym --area rot|quat|affine [--chains FILE] --out F`: one pass over every operation form (the records
 /// do not depend on a seed: the operands are free symbols).
 pub fn drive_sym(args: &[String]) {
@@ -261,6 +324,7 @@ pub fn drive_sym(args: &[String]) {
     match area.as_str() {
         "rot" => rot(&mut d),
         "quat" => quats(&mut d),
+        "bezier" => bezier(&mut d),
         "affine" => {
             let mut chains: Vec<(usize, Vec<String>)> = vec![];
             if let Some(p) = arg(args, "--chains") {
